@@ -97,6 +97,13 @@ PROPS["C16"] = dict(functions=_DECL, standins=["C16"], level="other",
                     frame=["_SYMBOL_UNIT_MAP", "_TERM_UNIT_MAP.register_item",
                            "_unit_map", "_item_def_map", "_item_list.append",
                            "_rate_dict.update", "_type_of_validity"])
+PROPS["C19"] = dict(
+    functions=[Q + "Quantity.__hash__", Q + "Unit.__hash__",
+               Q + "Quantity.__eq__", Q + "Unit.__eq__",
+               Q + "Quantity.equiv_amount"],
+    standins=["C19"], level="other",
+    level_note="Term.__hash__/__eq__ rest on the C07 contracts; Unit "
+               "eq/hash and table types are recorded known findings")
 PROPS["C05"]["functions"] += _UNIT_ALG[:5] + _QTY_ALG
 
 ALL_IDS = [f"C{i:02d}" for i in range(1, 21)]
